@@ -19,7 +19,8 @@ from . import solve
 from .val import Unsupported, B, band
 
 VERIF = os.path.dirname(os.path.dirname(os.path.abspath(__file__)))
-OUT = os.path.join(VERIF, "out")
+OUT = os.environ.get("PVC_OUT") or os.path.join(VERIF, "out")
+EVID = os.path.join(OUT, "evidence") if os.environ.get("PVC_OUT") else os.path.join(VERIF, "evidence")
 VENV_PY = "/venv/bin/python"
 
 UNITS = {}
@@ -116,6 +117,9 @@ class Ctx:
         elif res["verdict"] == solve.Verdict.UNKNOWN:
             rec["note"] += " " + str(res.get("reason", ""))
         self.obs.append(rec)
+        if os.environ.get("PVC_TRACE"):
+            print("  [trace] %s %s %.2fs %s" % (oid, rec["verdict"], rec["seconds"], rec["backend"]),
+                  file=sys.stderr, flush=True)
         return rec["verdict"] in (solve.Verdict.PROVED, "proved-outside-known-finding")
 
     def decided(self, label, kind, ok, witness=None, replay=None, note="", backend="evaluation"):
